@@ -353,6 +353,29 @@ func init() {
 				items = append(items, it)
 			}
 		}
+		// values whose encode fails part-way: a failed encode in one goroutine must not leak into anybody's later encode
+		for _, t := range schema.Types {
+			for i, op := range t.fieldOps() {
+				if op.K == "nums" && op.CW == 2 && len(items) < 4000 {
+					v := g.msg(t.ID, true, 0)
+					l := &Val{K: 'N'}
+					for k := 0; k < 65536; k++ {
+						l.Ns = append(l.Ns, uint64(k)&maxOf(op.W))
+					}
+					v.Fs[i] = l
+					items = append(items, item{v: v, want: goEnc(v, nil, BufMode{})})
+					for _, ft := range frameTypes() {
+						for _, e := range schema.Tables[ft.Frame.Tbl].Entries {
+							if e.Ty == t.ID {
+								fv := g.msgWithKey(ft.ID, e, true)
+								fv.Fs[len(ft.Frame.Hdr)+1] = v
+								items = append(items, item{v: fv, want: goEnc(fv, nil, BufMode{})})
+							}
+						}
+					}
+				}
+			}
+		}
 		workers := 16
 		loops := 3
 		if thorough {
